@@ -146,7 +146,8 @@ def run_property(modname: str, tier: str = "quick", write_baseline=False) -> int
         rfile = os.path.join(replay_dir, _safe(o.name) + "@" + o.path_sig + ".json")
         payload = {"property": prop, "obligation": o.name, "kind": o.kind, "path_signature": o.path_sig,
                    "solver_status": o.status, "backend": o.backend, "detail": o.detail, "witness": o.witness,
-                   "replay": observation, "solver_model": o.model_text, "repo_root": REPO_ROOT}
+                   "replay": observation, "solver_model": o.model_text, "repo_root": REPO_ROOT,
+                   "path_decisions": list(getattr(o, "path_labels", ()))}
         if o.kind == "vacuity":
             undecided.append(o)
             continue
